@@ -1552,7 +1552,11 @@ def check_c12(prop, tier, seed):
     if not har["ok"]:
         p = write_replay(prop, "correspondence", dict(stream="harness-build", detail=har["msg"][-800:]))
         return finish(prop, tier, seed, t0, cov, [(p, " no-failing-input-found")], known_lines, notes)
-    limit = 2000 if tier == "quick" else 50000
+    # the search stops as soon as every (protocol, opcode) pair has a witness: on the unchanged tree the cached
+    # witnesses answer at once; the range is what the search may use before it gives up (the rarest opcode,
+    # NEWOBJ_EX, first occurs around seed 500-1500, so a range of 2 000 would turn any harmless shift of the
+    # random stream into an alarm)
+    limit = 12000 if tier == "quick" else 50000
     tables = {}
     names = {}
     for l in harness_lines(["tables"]).split("\n"):
